@@ -167,6 +167,9 @@ func runC12(c *core.Ctx) {
 			case nAtomic > 0:
 				u := unprotected[0]
 				c.Bad("R1", name, p.InstrPos(u.in), fmt.Sprintf("field is accessed atomically elsewhere but %s non-atomically in %s", rw(u.write), core.FName(u.fn)))
+			case nLocked == 0 && singleShotOwners(p, tg.n, owners) != nil:
+				o := singleShotOwners(p, tg.n, owners)
+				c.OK("R1", name, "", "all post-construction accesses confined to "+core.FName(o)+" and helpers only it calls")
 			case len(owners) == 1 && nLocked == 0:
 				var o *ssa.Function
 				for k := range owners {
@@ -401,4 +404,41 @@ func isOptionClosureParam(fn *ssa.Function, base ssa.Value) bool {
 	}
 	_, isFunc := n.Underlying().(*types.Signature)
 	return isFunc
+}
+
+// singleShotOwners: all owner functions are a single-shot method of n or helpers called only from it.
+func singleShotOwners(p *core.Prog, n *types.Named, owners map[*ssa.Function]bool) *ssa.Function {
+	var root *ssa.Function
+	for o := range owners {
+		if _, ok := c12SingleShot[n.Obj().Name()+"."+o.Name()]; ok && o.Signature.Recv() != nil {
+			root = o
+		}
+	}
+	if root == nil {
+		return nil
+	}
+	for o := range owners {
+		if o == root {
+			continue
+		}
+		// every static call of o is in root
+		n, okc := 0, true
+		for _, fn := range p.Funcs {
+			core.AllInstrs(fn, func(in ssa.Instruction) {
+				if cc := core.CallCommon(in); cc != nil && !cc.IsInvoke() && cc.StaticCallee() == o {
+					n++
+					if core.Outermost(fn) != root {
+						okc = false
+					}
+					if _, isGo := in.(*ssa.Go); isGo {
+						okc = false
+					}
+				}
+			})
+		}
+		if n == 0 || !okc {
+			return nil
+		}
+	}
+	return root
 }
